@@ -62,7 +62,7 @@ def _indices_shapes():
     return out
 
 
-@contract('bitstore.indices', shapes=_indices_shapes(), props={'C01', 'C12'}, kind='internal', relational=True,
+@contract('bitstore.indices', shapes=_indices_shapes(), props={'C12'}, kind='internal', relational=True,
           note="slice(*indices(s, n)) selects exactly the positions s selects on a length-n sequence, "
                "and the triple is in canonical (in-range) form")
 def indices_post(C, args, kwargs, out):
